@@ -176,6 +176,17 @@ _CTX = [None]
 def nontrivial(case, ob):
     sig = json.dumps([case["types"], case.get("regs", []), case["offers"], case["ops"]], sort_keys=True)
     ctx = _CTX[0]
+    if ctx is not None and ob.get("ok") and case.get("provides"):
+        # @provides(P1, P2, ...) must register the class with EVERY listed protocol: the issubclass table the implementation
+        # ends up with is compared with plain ABCMeta.register calls (pure CPython)
+        want = python_accepts(case["types"], case.get("regs", []) + [[p_, c] for c, ps in case["provides"] for p_ in ps])
+        if want is not None and [[bool(x) for x in row] for row in ob["sub"]] != [[bool(x) for x in row] for row in want]:
+            missing = [(a, b) for a in range(len(want)) for b in range(len(want)) if bool(want[a][b]) != bool(ob["sub"][a][b])]
+            ctx.fail("provides-decorator/protocol-not-registered",
+                     "@provides%r leaves the class without some of the listed protocols: issubclass differs from plain "
+                     "register() calls at (type, protocol) %r; types=%r regs=%r — the object then does not 'already provide' the "
+                     "protocol and offers from it never apply" % (case["provides"], missing, case["types"], case.get("regs", [])),
+                     dict(kind="hierarchy-registration", case=case, observed_issubclass=ob["sub"], expected_issubclass=want))
     if ctx is not None:
         if not ob.get("ok"):
             ctx.count("hierarchy:rejected-by-python")
@@ -347,6 +358,17 @@ def gen_case(rnd, ctx, max_types, max_offers, nq):
         for t in types:
             t["name"] = "P"            # all classes share one __name__ (they live in different modules)
         ctx.count("shape:same-class-names")
+    provides = []
+    abcs = [i for i, t in enumerate(types) if t.get("abc")]
+    plain = [i for i, t in enumerate(types) if not t.get("abc") and not t.get("builtin")]
+    if len(abcs) >= 2 and plain and sub is not None and rnd.random() < 0.5:
+        ps = rnd.sample(abcs, 2)
+        cls = rnd.choice(plain)
+        if python_accepts(types, regs + [[p_, cls] for p_ in ps]) is not None:
+            provides = [[cls, ps]]
+            ctx.count("hierarchy:@provides with two protocols")
+    lazy = rnd.random() < 0.25         # offers registered in the lazy-loading form ('module.Name' strings)
+    ctx.count("offers-given-as:" + ("strings" if lazy else "objects"))
     ctx.count("types:%d" % n)
     ctx.count("offers:%d" % no)
     ctx.count("abc-types:%d" % sum(1 for t in types if t["abc"]))
@@ -354,7 +376,7 @@ def gen_case(rnd, ctx, max_types, max_offers, nq):
     ctx.count("multiple-inheritance:%d" % int(any(len(t["bases"]) > 1 for t in types)))
     for o in offers:
         ctx.count("factory:" + o[2][0])
-    return dict(types=types, regs=regs, offers=offers, ops=ops)
+    return dict(types=types, regs=regs, offers=offers, ops=ops, lazy=lazy, provides=provides)
 
 
 def corpus():
@@ -382,6 +404,22 @@ def corpus():
     cs.append(dict(types=[{"bases": []}, {"bases": []}, {"bases": []}], regs=[], offers=[[0, 1, ["A"]]],
                    ops=[[0, 2, 0, "adapt_default"], ["offer", 1, 2, ["A"]], [0, 2, 0, "adapt_default"], [0, 2, 0, "AdaptsTo"],
                         ["offer", 0, 2, ["A"]], [0, 2, 0, "adapt"]]))
+    # @provides(IBase, IDerived) with IDerived(IBase), in both orders: the class provides both; an offer from IDerived applies
+    for ps in ([0, 1], [1, 0]):
+        cs.append(dict(types=[{"bases": [], "abc": True}, {"bases": [0], "abc": True}, {"bases": []}, {"bases": []}], regs=[],
+                       provides=[[2, ps]], offers=[[1, 3, ["A"]]],
+                       ops=[[2, 1, 0, "adapt"], [2, 0, 0, "adapt"], [2, 3, 0, "adapt"], [2, 3, 0, "Supports"], [2, 1, 0, "Supports"]]))
+    # chains of five and six adapters (no artificial limit on the chain length), also with lazily loaded offers
+    line = [{"bases": []}] * 7
+    for lazy in (False, True):
+        cs.append(dict(types=line, regs=[], lazy=lazy, offers=[[i, i + 1, ["A"]] for i in range(6)],
+                       ops=[[0, 5, 0, "adapt"], [0, 6, 0, "adapt_default"], [0, 5, 0, "Supports"], [1, 6, 0, "AdaptsTo"],
+                            [0, 6, 0, "supports"], [0, 4, 0, "adapt_module"], [0, 5, 0, "adapt"], [0, 5, 0, "Supports"]]))
+    # lazily loaded offers used twice, in chains of two, with a builtin protocol and with same-named classes
+    cs.append(dict(types=[{"bases": [], "name": "P"}, {"bases": [], "name": "P"}, {"bases": [], "builtin": "dict"}, {"bases": [0]}],
+                   regs=[], lazy=True, offers=[[0, 1, ["A"]], [1, 2, ["A"]], [2, 0, ["D", 1]]],
+                   ops=[[0, 1, 0, "adapt"], [0, 1, 0, "adapt"], [0, 2, 0, "adapt_default"], [3, 2, 0, "Supports"], [3, 2, 0, "Supports"],
+                        [2, 1, 0, "adapt_module"], [2, 1, 0, "AdaptsTo"], ["offer", 3, 2, ["A"]], [3, 2, 0, "adapt"], [3, 2, 0, "adapt"]]))
     # the global manager is reset by somebody else: the user's manager keeps its offers (manager.adapt still answers), the
     # module-level route sees a new empty manager until the user's one is installed again
     cs.append(dict(types=[{"bases": []}, {"bases": []}, {"bases": []}], regs=[], offers=[[0, 1, ["A"]], [1, 2, ["A"]]],
@@ -480,7 +518,7 @@ def run(ctx):
         grid = exhaustive(ctx, 2, 2, [["A"], ["N"]])       # every 2-type hierarchy x every offer sequence of length <= 2
         ctx.count("grid:<=2 types x <=2 offers x {always,never} (exhaustive)", len(grid))
         ctx.cov["exhaustive"] = True
-        cases = corpus() + grid + [gen_case(rnd, ctx, 5, 6, 8) for _ in range(700)]
+        cases = corpus() + grid + [gen_case(rnd, ctx, 5, 5, 8) for _ in range(700)]
     else:
         grid = exhaustive(ctx, 3, 2, [["A"], ["N"]])
         seen = set(json.dumps(c, sort_keys=True) for c in grid)
